@@ -221,6 +221,9 @@ pub fn root_object_hash(a: &Object, h: &mut std::collections::hash_map::DefaultH
 pub fn root_object_clone(a: &Object) -> Object {
     a.clone()
 }
+pub fn root_object_clone_from(a: &mut Object, b: &Object) {
+    a.clone_from(b)
+}
 pub fn root_entry_eq(a: &Entry, b: &Entry) -> bool {
     a == b
 }
@@ -630,6 +633,12 @@ pub fn root_set_iter_next_back(i: &mut json_syntax::kind::KindSetIter) -> Option
 }
 pub fn root_set_iter_size_hint(i: &json_syntax::kind::KindSetIter) -> (usize, Option<usize>) {
     i.size_hint()
+}
+pub fn root_set_iter_last(i: json_syntax::kind::KindSetIter) -> Option<Kind> {
+    i.last()
+}
+pub fn root_set_iter_count(i: json_syntax::kind::KindSetIter) -> usize {
+    i.count()
 }
 pub fn root_set_eq(a: &KindSet, b: &KindSet) -> bool {
     a == b
